@@ -412,6 +412,7 @@ func marshalVia(route int, e *eap.EAP) callRes {
 				return "method-marshal-differs " + hx(tb), nil
 			}
 		}
+		poolAdd(b)
 		return hx(b), nil
 	})
 }
@@ -720,6 +721,21 @@ func (g *Gen) c14Eap(i int) *Sx {
 	}
 }
 
+// packets written without the library (arbitrary attribute order, duplicates, non-zero reserved octets and
+// padding), mutated ones and noise, decoded into throw-away objects: history for the cases that follow
+func c14ForeignDecode(g *Gen) {
+	var w []byte
+	switch g.r.Intn(4) {
+	case 0:
+		w = g.akaWire()
+	case 1:
+		w = g.mutate(g.akaWireMac(g.keyBytesRandom(32), true))
+	default:
+		w = g.akaWireMac(g.keyBytesRandom(32), true)
+	}
+	guard(func() (string, error) { return "", new(eap.EAP).Unmarshal(exact(w)) })
+}
+
 func propC14(c *Ctx) {
 	g := NewGen(c.seed)
 	if c.replay != nil {
@@ -729,9 +745,12 @@ func propC14(c *Ctx) {
 	var corr, corrSet []corrCase
 
 	s1 := c.suite("eap-roundtrip-framing", "oracle",
-		"EAP packets of the encodable domain (codes 1,2 and arbitrary codes with Identity/Notification/Nak >= 1 octet, Expanded with vendor id < 2^24 incl. EAP-5G, AKA' built by SetAttr from any subset of RAND/AUTN/MAC(16) RES(4..16) KDF(2) KDF_INPUT(0..300) CHECKCODE(0,20,32) in arbitrary call order with overwrites; codes 3,4 and others without method data): value read back after every SetAttr, Marshal 8 times through (*EAP).Marshal / message.PayloadEap / method Marshal with read-back after each, framing by an independent parser and octet equality with an independent RFC encoder, Unmarshal == original, read-back on the decoded copy; plus a sweep of every KDF_INPUT size 0..300 and every RES size 4..16 alone and next to other attributes; non-trivial = packet with method data; distinct by packet")
+		"EAP packets of the encodable domain (codes 1,2 and arbitrary codes with Identity/Notification/Nak >= 1 octet, Expanded with vendor id < 2^24 incl. EAP-5G, AKA' built by SetAttr from any subset of RAND/AUTN/MAC(16) RES(4..16) KDF(2) KDF_INPUT(0..300) CHECKCODE(0,20,32) in arbitrary call order with overwrites; codes 3,4 and others without method data): value read back after every SetAttr, Marshal 8 times through (*EAP).Marshal / message.PayloadEap / method Marshal with read-back after each, framing by an independent parser and octet equality with an independent RFC encoder, Unmarshal == original, read-back on the decoded copy; before every third case a packet written WITHOUT the library (arbitrary attribute order, duplicates, non-zero reserved octets and padding, or mutated) is decoded into a throw-away object; plus a sweep of every KDF_INPUT size 0..300 and every RES size 4..16 alone and next to other attributes; non-trivial = packet with method data; distinct by packet")
 	idx := 0
 	for i := 0; i < c.n(1500, 100000); i++ {
+		if i%3 == 1 { // the process also decodes what peers send, in between
+			c14ForeignDecode(g)
+		}
 		c.c14Case(s1, g.c14Eap(i), idx, &corr)
 		idx++
 	}
@@ -1228,6 +1247,7 @@ func (g *Gen) akaWireMac(key []byte, wild bool) []byte {
 			copy(w[a.off+4:a.off+20], mac)
 		}
 	}
+	poolAdd(w)
 	return w
 }
 
